@@ -25,30 +25,30 @@ def takeField (fs : Fields) (orig camel : String) : Option Json × Fields :=
   (match vC with | some v => some v | none => vO, Json.eraseKey (Json.eraseKey fs orig) camel)
 
 /-- `json.Unmarshal(raw, &map[string]RawMessage)` for a nested message value. -/
-def asObject (j : Json) : Res Fields :=
+def asObject (j : Json) : Dec Fields :=
   match j with
   | .obj fs => .ok fs
   | .null => .ok []
   | _ => .err "jsonpb:not-an-object"
 
-def noUnknown (fs : Fields) : Res Unit :=
+def noUnknown (fs : Fields) : Dec Unit :=
   if fs.isEmpty then .ok () else .err "jsonpb:unknown-field"
 
-def decString (j : Json) : Res String :=
+def decString (j : Json) : Dec String :=
   match j with
   | .str v _ => .ok v
   | .null => .ok ""
   | _ => .err "jsonpb:string"
 
 /-- A JSON number literal as an unsigned integer below `bound` (`strconv.ParseUint` + overflow). -/
-def uintOfLiteral (raw : String) (bound : Nat) : Res Nat :=
+def uintOfLiteral (raw : String) (bound : Nat) : Dec Nat :=
   if allDigits raw.toList then
     let n := decVal raw.toList
     if n < bound then .ok n else .err "jsonpb:uint-range"
   else .err "jsonpb:uint-literal"
 
-def intOfLiteral (raw : String) (lo hi : Int) : Res Int :=
-  let go (neg : Bool) (ds : List Char) : Res Int :=
+def intOfLiteral (raw : String) (lo hi : Int) : Dec Int :=
+  let go (neg : Bool) (ds : List Char) : Dec Int :=
     if allDigits ds then
       let n : Int := if neg then - Int.ofNat (decVal ds) else Int.ofNat (decVal ds)
       if lo ≤ n && n ≤ hi then .ok n else .err "jsonpb:int-range"
@@ -58,7 +58,7 @@ def intOfLiteral (raw : String) (lo hi : Int) : Res Int :=
   | ds => go false ds
 
 /-- uint32: a number, `null` (no effect), or a quoted number whose raw inner text is re-parsed. -/
-def decUint32 (j : Json) : Res Nat :=
+def decUint32 (j : Json) : Dec Nat :=
   match j with
   | .num raw => uintOfLiteral raw (2 ^ 32)
   | .null => .ok 0
@@ -71,7 +71,7 @@ def decUint32 (j : Json) : Res Nat :=
   | _ => .err "jsonpb:uint"
 
 /-- Enum: quoted ⇒ looked up by name on the raw text; unquoted number ⇒ any int32; null ⇒ 0. -/
-def decEnum (names : List (Int × String)) (j : Json) : Res Int :=
+def decEnum (names : List (Int × String)) (j : Json) : Dec Int :=
   match j with
   | .str v plain =>
       if !plain then .err "jsonpb:enum-name" else
@@ -83,7 +83,7 @@ def decEnum (names : List (Int × String)) (j : Json) : Res Int :=
   | _ => .err "jsonpb:enum"
 
 /-- `[]byte`: base64 string, `null`, or (encoding/json) an array of uint8 literals / nulls. -/
-def decBytes (j : Json) : Res Bytes :=
+def decBytes (j : Json) : Dec Bytes :=
   match j with
   | .str v _ => match b64Decode (strBytes v) with
       | some b => .ok b
@@ -97,8 +97,8 @@ def decBytes (j : Json) : Res Bytes :=
   | _ => .err "jsonpb:bytes"
 
 /-- customtype `math.Int`: `Int.UnmarshalJSON` is called whatever the JSON value is. -/
-def decMathInt (j : Json) : Res Int :=
-  let text : Res String := match j with
+def decMathInt (j : Json) : Dec Int :=
+  let text : Dec String := match j with
     | .str v _ => .ok v
     | .null => .ok ""
     | _ => .err "jsonpb:mathint-not-string"
@@ -108,7 +108,7 @@ def decMathInt (j : Json) : Res Int :=
 
 /-- Non-pointer nested `Coin {denom, amount}`; an absent amount is the nil Int, which the binary
 round trip turns into 0. -/
-def decCoin (j : Json) : Res (String × Int) := do
+def decCoin (j : Json) : Dec (String × Int) := do
   let fs ← asObject j
   let (d, fs) := takeField fs "denom" "denom"
   let (a, fs) := takeField fs "amount" "amount"
@@ -118,7 +118,7 @@ def decCoin (j : Json) : Res (String × Int) := do
   pure (denom, amt)
 
 /-- Pointer to a message holding one scalar field `value`. `null` leaves the pointer nil. -/
-def decValueMsg {α} (dec : Json → Res α) (dflt : α) (j : Json) : Res (Option α) :=
+def decValueMsg {α} (dec : Json → Dec α) (dflt : α) (j : Json) : Dec (Option α) :=
   match j with
   | .null => .ok none
   | _ => do
@@ -128,7 +128,7 @@ def decValueMsg {α} (dec : Json → Res α) (dflt : α) (j : Json) : Res (Optio
     noUnknown fs
     pure (some r)
 
-def decFeeInfo (π : OneofOrder) (j : Json) : Res FeeInfo := do
+def decFeeInfo (π : OneofOrder) (j : Json) : Dec FeeInfo := do
   let fs ← asObject j
   let (r, fs) := takeField fs "recipient" "recipient"
   let recipient ← match r with | some v => decString v | none => pure ""
@@ -150,7 +150,7 @@ def decFeeInfo (π : OneofOrder) (j : Json) : Res FeeInfo := do
   pure { recipient := recipient, feeType := ft }
 
 /-- Repeated pointer-to-message field. `null` elements stay nil pointers in Go; the caller decides. -/
-def decRepeated {α} (dec : Json → Res α) (j : Json) : Res (List (Option α)) :=
+def decRepeated {α} (dec : Json → Dec α) (j : Json) : Dec (List (Option α)) :=
   match j with
   | .null => .ok []
   | .arr items => items.mapM fun it => match it with
@@ -163,7 +163,7 @@ def hypUrl : String := "/noble.orbiter.controller.forwarding.v1.HypAttributes"
 def internalUrl : String := "/noble.orbiter.controller.forwarding.v1.InternalAttributes"
 def feeUrl : String := "/noble.orbiter.controller.action.v2.FeeAttributes"
 
-def decCCTP (fs : Fields) : Res Attrs := do
+def decCCTP (fs : Fields) : Dec Attrs := do
   let (d, fs) := takeField fs "destination_domain" "destinationDomain"
   let (m, fs) := takeField fs "mint_recipient" "mintRecipient"
   let (c, fs) := takeField fs "destination_caller" "destinationCaller"
@@ -173,7 +173,7 @@ def decCCTP (fs : Fields) : Res Attrs := do
   noUnknown fs
   pure (.cctp domain mint caller)
 
-def decHyp (fs : Fields) : Res Attrs := do
+def decHyp (fs : Fields) : Dec Attrs := do
   let (t, fs) := takeField fs "token_id" "tokenId"
   let (d, fs) := takeField fs "destination_domain" "destinationDomain"
   let (r, fs) := takeField fs "recipient" "recipient"
@@ -191,7 +191,7 @@ def decHyp (fs : Fields) : Res Attrs := do
   noUnknown fs
   pure (.hyp tok domain rec_ hook hmeta gas fee.1 fee.2)
 
-def decInternal (fs : Fields) : Res Attrs := do
+def decInternal (fs : Fields) : Dec Attrs := do
   let (r, fs) := takeField fs "recipient" "recipient"
   let recipient ← match r with | some v => decString v | none => pure ""
   noUnknown fs
@@ -201,8 +201,8 @@ def decInternal (fs : Fields) : Res Attrs := do
 decoded message is packed into `Any.Value`. -/
 def decFee (π : OneofOrder) (fs : Fields) : Res Attrs := do
   let (f, fs) := takeField fs "fees_info" "feesInfo"
-  let infos ← match f with | some v => decRepeated (decFeeInfo π) v | none => pure []
-  noUnknown fs
+  let infos ← (match f with | some v => decRepeated (decFeeInfo π) v | none => pure []).toRes
+  (noUnknown fs).toRes
   if infos.any Option.isNone then .panic "FeeAttributes.Marshal:nil-element"
   else pure (.fee (infos.filterMap id))
 
@@ -217,32 +217,32 @@ def decAny (π : OneofOrder) (j : Json) : Res (Option Attrs) :=
     | some .null => .err "jsonpb:any-no-type"
     | some (.str url _) =>
       let rest := Json.eraseKey fs "@type"
-      if url == cctpUrl then (decCCTP rest).map some
-      else if url == hypUrl then (decHyp rest).map some
-      else if url == internalUrl then (decInternal rest).map some
+      if url == cctpUrl then ((decCCTP rest).map some).toRes
+      else if url == hypUrl then ((decHyp rest).map some).toRes
+      else if url == internalUrl then ((decInternal rest).map some).toRes
       else if url == feeUrl then (decFee π rest).map some
       else .err "jsonpb:any-unresolved"
     | some _ => .err "jsonpb:any-type-not-string"
   | _ => .err "jsonpb:any-not-object"
 
 def decAction (π : OneofOrder) (j : Json) : Res Action := do
-  let fs ← asObject j
+  let fs ← (asObject j).toRes
   let (i, fs) := takeField fs "id" "id"
   let (a, fs) := takeField fs "attributes" "attributes"
-  let id ← match i with | some v => decEnum Gen.actionIds v | none => pure 0
+  let id ← (match i with | some v => decEnum Gen.actionIds v | none => pure 0).toRes
   let attrs ← match a with | some v => decAny π v | none => pure none
-  noUnknown fs
+  (noUnknown fs).toRes
   pure { id := id, attrs := attrs }
 
 def decForwarding (π : OneofOrder) (j : Json) : Res Forwarding := do
-  let fs ← asObject j
+  let fs ← (asObject j).toRes
   let (p, fs) := takeField fs "protocol_id" "protocolId"
   let (a, fs) := takeField fs "attributes" "attributes"
   let (pt, fs) := takeField fs "passthrough_payload" "passthroughPayload"
-  let pid ← match p with | some v => decEnum Gen.protocolIds v | none => pure 0
+  let pid ← (match p with | some v => decEnum Gen.protocolIds v | none => pure 0).toRes
   let attrs ← match a with | some v => decAny π v | none => pure none
-  let pass ← match pt with | some v => decBytes v | none => pure []
-  noUnknown fs
+  let pass ← (match pt with | some v => decBytes v | none => pure []).toRes
+  (noUnknown fs).toRes
   pure { protocolId := pid, attrs := attrs, passthrough := pass }
 
 /-- Result of decoding `pre_actions`: nil elements are kept (as `none`) because the code that
@@ -252,32 +252,40 @@ structure RawPayload where
   preActions : List (Option Action)
   deriving Repr, Inhabited
 
+/-- `decRepeated` for element decoders that may panic (the `Any` packing inside an action). -/
+def decRepeatedR {α} (dec : Json → Res α) (j : Json) : Res (List (Option α)) :=
+  match j with
+  | .null => .ok []
+  | .arr items => items.mapM fun it => match it with
+      | .null => .ok none
+      | x => (dec x).map some
+  | _ => .err "jsonpb:not-an-array"
+
 def decPayload (π : OneofOrder) (j : Json) : Res RawPayload := do
-  let fs ← asObject j
+  let fs ← (asObject j).toRes
   let (pa, fs) := takeField fs "pre_actions" "preActions"
   let (fw, fs) := takeField fs "forwarding" "forwarding"
-  let acts ← match pa with | some v => decRepeated (decAction π) v | none => pure []
+  let acts ← match pa with | some v => decRepeatedR (decAction π) v | none => pure []
   let fwd ← match fw with
     | some .null => pure none
     | some v => (decForwarding π v).map some
     | none => pure none
-  noUnknown fs
+  (noUnknown fs).toRes
   pure { forwarding := fwd, preActions := acts }
 
 /-- `PayloadWrapper` + `UnpackInterfaces` (attribute family must match the field's interface). -/
 def decWrapper (π : OneofOrder) (j : Json) : Res RawPayload := do
-  let fs ← asObject j
+  let fs ← (asObject j).toRes
   let (o, fs) := takeField fs Gen.orbiterPrefix Gen.orbiterPrefix
   let p ← match o with
     | some .null => (.err "unpack:nil-payload" : Res RawPayload)
     | some v => decPayload π v
     | none => .err "unpack:nil-payload"
-  noUnknown fs
+  (noUnknown fs).toRes
   -- UnpackInterfaces
-  for a in p.preActions do
-    match a with
+  Res.allM (fun (a : Option Action) => match a with
     | some { attrs := some at_, .. } => if !at_.isAction then (.err "unpack:not-action-attributes" : Res Unit) else pure ()
-    | _ => pure ()
+    | _ => pure ()) p.preActions
   match p.forwarding with
   | some { attrs := some at_, .. } => if !at_.isForwarding then (.err "unpack:not-forwarding-attributes" : Res Unit) else pure ()
   | _ => pure ()
@@ -288,7 +296,7 @@ five string fields, unknown fields rejected. -/
 def decFTPD (data : Bytes) : Option FTPD :=
   match parseJsonFirst data with
   | some (.obj fs) =>
-    let r : Res FTPD := do
+    let r : Dec FTPD := do
       let (d, fs) := takeField fs "denom" "denom"
       let (a, fs) := takeField fs "amount" "amount"
       let (s, fs) := takeField fs "sender" "sender"
